@@ -149,7 +149,14 @@ struct C02Delivery : Monitor {
 			// under re-delivery faults (C16) a re-answered query may make the receiver write a packet again: repeats are
 			// C01-legal and not what C16 is about; loss and reordering still are
 			// (downstream only: the server writing an upstream packet twice is exactly what C16 forbids)
-			if (prop != "C02" && dir[0] == 's' && !seen_once.insert(d.pkt).second) { w->probes["c16.repeat_writes"]++; continue; }
+			if (prop != "C02" && dir[0] == 's' && !seen_once.insert(d.pkt).second) {
+				w->probes["c16.repeat_writes"]++;
+				// ... except that under C16 itself a second write of a downstream packet IS the stream rewound at its receiving end by
+				// nothing but a re-delivered query (the answer replayed from the cache reaches the client again): since the client
+				// remembers that it has passed a packet on (fix for findings/r5/C16-finding2) that must not happen any more
+				if (prop == "C16") { char b[200]; snprintf(b, sizeof b, "%s: the packet ser=%llu was written to the receiver's tun a second time", dir, (unsigned long long)pkt_serial(d.pkt)); w->S.violate(prop, "stream.rewound.receiver", b); return; }
+				continue;
+			}
 			got.push_back(&d.pkt);
 		}
 		w->probes[std::string("c02a.must.") + dir] = (int64_t)must;
